@@ -327,7 +327,11 @@ Inductive op :=
   | OOp (i : nat) (f : fn) (inplace : bool) (dtchg : bool)
   | OConcat (js : list (nat * Z))
   | ODrop (i : nat)
-  | OOpSeq (i : nat) (g : fn2) (j : nat) (inplace : bool) (dtchg : bool).
+  | OOpSeq (i : nat) (g : fn2) (j : nat) (inplace : bool) (dtchg : bool)
+  | OAppendBad (i : nat)            (* append of a non-empty element with another trailing shape *)
+  | OShrink (i : nat)               (* shrink_data() called directly *)
+  | OConcat1 (js : list nat)        (* concatenate(seqs, axis=1) *)
+  | OGetCols (i : nat) (ix : index) (* seq[idx, cols]: a column view of the selected elements *).
 
 Inductive result := ROk | RElem (e : list Z) | RErr (e : err).
 
@@ -335,6 +339,16 @@ Definition is_live (st : state) (i : nat) : bool := (i <? length (seqs st)) && l
 
 Definition new_view (st : state) (s : seq) (os ls : list nat) (bytes : Z) : state :=
   add_seq st (mkSeq (sbuf s) os ls true bytes None true).
+
+(* concatenate(axis=1): one row of the result is the row of the first operand followed by the rows of
+   the others; with one Z per row the joined row is coded positionally in base cat_base *)
+Definition cat_base : Z := 100003.
+Fixpoint zip_rows (rs : list (list Z)) : list Z :=
+  match rs with
+  | [] => []
+  | [r] => r
+  | r :: rest => zip_with (fun a b => (a + cat_base * b)%Z) r (zip_rows rest)   (* little-endian digits *)
+  end.
 
 Definition step (st : state) (o : op) : state * result :=
   match o with
@@ -473,6 +487,55 @@ Definition step (st : state) (o : op) : state * result :=
             let st2 := if dtchg then new_buf_for st1 k b else st1 in
             (set_buf st2 (sbuf (getseq st2 k)) (mkBuf (cap b) r), ROk)
           end
+      end
+    else (st, RErr EBadSeq)
+  | OAppendBad i =>
+    (* fixes d6c9fa58 / 6d34bd19: the trailing shape is checked before anything else, in a cached
+       build too.  A sequence without any element may not have a trailing shape yet (the element
+       would define it): outside the modelled domain, reported as EBadSeq. *)
+    if is_live st i then
+      let s := getseq st i in
+      match offs s, scache s with
+      | [], None => (st, RErr EBadSeq)
+      | _, _ => (st, RErr EValue)
+      end
+    else (st, RErr EBadSeq)
+  | OShrink i =>
+    (* inside a cached build shrink_data() would cut the pending rows (API misuse: "append can assume
+       it is the only player"): outside the modelled domain, reported as EBadSeq *)
+    if is_live st i then
+      match scache (getseq st i) with
+      | None => (shrink st i, ROk)
+      | Some _ => (st, RErr EBadSeq)
+      end
+    else (st, RErr EBadSeq)
+  | OConcat1 js =>
+    (* fix a8ee0dfb: new_seq = seqs[0].copy(); its rows are joined with the rows of COMPACT copies of
+       the others; np.concatenate needs equally many rows.  Operands without rows may still hold the
+       1-D initial buffer (AxisError): outside the modelled domain, EBadSeq. *)
+    match js with
+    | [] => (st, RErr EIndex)
+    | j0 :: _ =>
+      if forallb (is_live st) js then
+        let rs := map (fun j => concat (contents st (getseq st j))) js in
+        let n := sum (lens (getseq st j0)) in
+        if n =? 0 then (st, RErr EBadSeq)
+        else if forallb (fun r => length r =? n) rs then
+          let st1 := do_copy st j0 in
+          let k := length (seqs st) in
+          let b := getbuf (heap st1) (sbuf (getseq st1 k)) in
+          (set_buf st1 (sbuf (getseq st1 k)) (mkBuf (cap b) (zip_rows rs)), ROk)
+        else (st, RErr EValue)
+      else (st, RErr EBadSeq)
+    end
+  | OGetCols i ix =>
+    (* seq._data = self._data[:, cols] is a NumPy view of the same memory, _is_view = True: with one Z
+       per row this is the view that seq[idx] creates (the harness only reads such objects) *)
+    if is_live st i then
+      let s := getseq st i in
+      match positions (length (offs s)) ix with
+      | Ok ps => (new_view st s (pick 0 (offs s) ps) (pick 0 (lens s) ps) default_bufbytes, ROk)
+      | Err e => (st, RErr e)
       end
     else (st, RErr EBadSeq)
   end.
